@@ -108,7 +108,9 @@ def trimRight (keepWs : Bool) : List HTok → Bool
   | .startTag n _ :: _ => !keepWs && isBlock n
   | .svg _ :: _ => false
   | .math _ :: _ => false
-  | .endTag n _ :: r => if keepWs then false else if isBlock n then true else trimRight keepWs r
+  | .endTag n _ :: r =>
+    if hashIs n "q" then false     -- the closing quotation mark is generated content
+    else if keepWs then false else if isBlock n then true else trimRight keepWs r
   | .comment _ _ :: r => trimRight keepWs r
   | .doctype :: r => trimRight keepWs r
 
@@ -116,30 +118,67 @@ def trimRight (keepWs : Bool) : List HTok → Bool
 def omitPEnd : List HTok → Bool
   | [] => true
   | .text d _ :: r => if isAllWhitespace d then omitPEnd r else false
-  | .endTag n _ :: _ => !has (tagTraits n) C03Tables.keepPTag
+  | .endTag n _ :: _ => tagTraits n != 0 && !has (tagTraits n) C03Tables.keepPTag
   | .startTag n _ :: _ => has (tagTraits n) C03Tables.omitPTag
   | _ :: _ => false
 
-/-- `</optgroup>` look-ahead: skip every text token; omit unless an `option` tag follows -/
+/-- `</optgroup>` look-ahead: skip every text token and comment; omit at the end of the input, before an end tag
+    other than `</option>`, or before another `<optgroup>` -/
 def omitOptgroupEnd : List HTok → Bool
   | [] => true
   | .text _ _ :: r => omitOptgroupEnd r
+  | .comment _ _ :: r => omitOptgroupEnd r
   | .endTag n _ :: _ => !hashIs n "option"
-  | .startTag n _ :: _ => !hashIs n "option"
-  | _ :: _ => true
+  | .startTag n _ :: _ => hashIs n "optgroup"
+  | _ :: _ => false
 
 def alwaysOmitEnd : List String :=
   ["thead", "tbody", "tfoot", "tr", "th", "td", "option", "dd", "dt", "li", "rb", "rt", "rtc", "rp"]
 
+/-- the start tags before which the end tag of `h` is inferred again -/
+def closesBefore (h next : List Char) : Bool :=
+  if hashIs h "li" then hashIs next "li"
+  else if hashIs h "dt" || hashIs h "dd" then hashIs next "dt" || hashIs next "dd"
+  else if hashIs h "rb" || hashIs h "rt" || hashIs h "rtc" || hashIs h "rp" then
+    hashIs next "rb" || hashIs next "rt" || hashIs next "rtc" || hashIs next "rp"
+  else if hashIs h "option" then hashIs next "option" || hashIs next "optgroup"
+  else if hashIs h "thead" || hashIs h "tbody" || hashIs h "tfoot" then
+    hashIs next "tbody" || hashIs next "tfoot" || hashIs next "thead"
+  else if hashIs h "tr" then hashIs next "tr"
+  else if hashIs h "td" || hashIs h "th" then hashIs next "td" || hashIs next "th"
+  else false
+
+/-- `endTagOmittable(tb, h)`: the next token that is not whitespace text or a comment (for `option`: not any
+    text or template token) is an end tag, the end of the input, or a start tag that closes `h` -/
+def endTagOmittable (h : List Char) : List HTok → Bool
+  | [] => true
+  | .text d _ :: r => if isAllWhitespace d || hashIs h "option" then endTagOmittable h r else false
+  | .comment _ _ :: r => endTagOmittable h r
+  | .template _ :: r => if hashIs h "option" then endTagOmittable h r else false
+  | .endTag _ _ :: _ => true
+  | .startTag n _ :: _ => closesBefore h n
+  | _ :: _ => false
+
 def omitEndTag (o : Opts) (name : List Char) (rest : List HTok) : Bool :=
   !o.keepEndTags &&
-  (alwaysOmitEnd.any (hashIs name) ||
+  ((alwaysOmitEnd.any (hashIs name) && endTagOmittable name rest) ||
    (hashIs name "p" && omitPEnd rest) ||
    (hashIs name "optgroup" && omitOptgroupEnd rest))
 
 /-- html/head/body (unless KeepDocumentTags) and colgroup tags without attributes are not written -/
 def isDroppedTag (o : Opts) (name : List Char) : Bool :=
   (!o.keepDocumentTags && (hashIs name "html" || hashIs name "head" || hashIs name "body")) || hashIs name "colgroup"
+
+def headBound : List String := ["script", "style", "link", "meta", "template", "noscript", "base", "title"]
+
+/-- an attribute-less `body` start tag is written after all when the next token that is not whitespace text or a
+    comment is a start tag that the parser would put into `head` -/
+def keepBody : List HTok → Bool
+  | [] => false
+  | .text d _ :: r => if isAllWhitespace d then keepBody r else false
+  | .comment _ _ :: r => keepBody r
+  | .startTag n _ :: _ => headBound.any (hashIs n)
+  | _ :: _ => false
 
 /-! ## attributes -/
 
@@ -171,6 +210,19 @@ def replaceAll (b pat rep : List Char) : Nat → List Char
       if pat.isPrefixOf b && !pat.isEmpty then rep ++ replaceAll (b.drop pat.length) pat rep fuel
       else c :: replaceAll r pat rep fuel
 
+/-- viewport `content`: a space is removed at the start, at the end, before `,` `;` `=` or another space, and
+    after a `,` `;` `=` that was written -/
+def viewportSpaces : (first : Bool) → (prevOut : Option Char) → List Char → List Char
+  | _, _, [] => []
+  | first, prev, c :: r =>
+    let sep (x : Char) : Bool := x = ',' || x = ';' || x = '='
+    if c = ' ' && (first || r.isEmpty || (match r.head? with | some n => sep n || n = ' ' | none => false) ||
+        (match prev with | some p => sep p | none => false)) then viewportSpaces false prev r
+    else c :: viewportSpaces false (some c) r
+
+def isTextLike (typ : List Char) : Bool :=
+  ["text", "search", "tel", "url", "email", "password", "number"].any (equalFold typ)
+
 /-- special cases for `meta`, `script`, `input`, `a` before the attributes are written -/
 def specialAttrs (ext : Ext) (tag : List Char) (as : List AttrSt) : Except String (List AttrSt) :=
   if hashIs tag "meta" then
@@ -197,7 +249,7 @@ def specialAttrs (ext : Ext) (tag : List Char) (as : List AttrSt) : Except Strin
         if equalFold nv "keywords" then
           as := modifyAt as ci (fun x => { x with val := replaceAll cv (s ", ") (s ",") (cv.length + 1) })
         else if equalFold nv "viewport" then
-          let cv1 := replaceAll cv (s " ") [] (cv.length + 1)
+          let cv1 := viewportSpaces true none cv
           let cv2 ← callExt ext "viewport" cv1
           as := modifyAt as ci (fun x => { x with val := cv2 })
       | none => pure ()
@@ -211,7 +263,7 @@ def specialAttrs (ext : Ext) (tag : List Char) (as : List AttrSt) : Except Strin
     | some ti, some vi =>
       let isRadio := equalFold ((as[ti]?.map (·.val)).getD []) "radio"
       let vv := (as[vi]?.map (·.val)).getD []
-      if (!isRadio && vv.isEmpty) || (isRadio && equalFold vv "on") then
+      if (isTextLike ((as[ti]?.map (·.val)).getD []) && vv.isEmpty) || (isRadio && equalFold vv "on") then
         .ok (modifyAt as vi (fun x => { x with keep := false }))
       else .ok as
     | _, _ => .ok as
@@ -262,6 +314,36 @@ def urlVal (ext : Ext) (val : List Char) : Except String (List Char) :=
     else .ok val
   else .ok val
 
+def isRefChar (c : Char) : Bool := isAlnum c || c = '#' || c = ';' || c = '='
+
+/-- `hasReferenceGlue(b)`: an `&`, then only reference characters, then directly `&#`, `&num;`, `&semi;` or
+    `&equals;`.  `inRun` = we are behind an `&` and have seen reference characters only. -/
+def hasGlueFrom : Bool → List Char → Bool
+  | _, [] => false
+  | inRun, c :: r =>
+    if c = '&' then
+      (inRun && (match r with
+        | [] => false
+        | d :: _ => d = '#' || (s "num;").isPrefixOf r || (s "semi;").isPrefixOf r || (s "equals;").isPrefixOf r)) ||
+      hasGlueFrom true r
+    else hasGlueFrom (inRun && isRefChar c) r
+
+def hasReferenceGlue (b : List Char) : Bool := hasGlueFrom false b
+
+/-- `parse.ReplaceMultipleWhitespace` -/
+def collapseWs : Bool → List Char → List Char
+  | _, [] => []
+  | inWs, c :: r =>
+    if isWhitespace c then
+      if inWs then collapseWs true r else (if runHasNewline (c :: r) then '\n' else ' ') :: collapseWs true r
+    else c :: collapseWs false r
+
+/-- entity replacement and whitespace handling of an attribute value -/
+def attrVal0 (trim : Bool) (val : List Char) : List Char :=
+  if hasReferenceGlue val then (if trim then trimWhitespace (collapseWs false val) else val)
+  else if trim then trimWhitespace (replaceWsEntities C03Tables.entitiesMap C03Tables.attrRevEntitiesMap val)
+  else replaceEntities C03Tables.entitiesMap C03Tables.attrRevEntitiesMap val
+
 /-- one attribute of the write loop: bytes written, and the new `rawTagMediatype` if this is the `type`
     attribute of a raw-text element -/
 def writeAttr (o : Opts) (ext : Ext) (sub : Sub) (tag : List Char) (rawTag : List Char) (x : AttrSt) :
@@ -270,9 +352,7 @@ def writeAttr (o : Opts) (ext : Ext) (sub : Sub) (tag : List Char) (rawTag : Lis
   else if x.a.tmpl then .ok (x.a.data, none)
   else do
     let tr := attrTraits x.a.name   -- traits were looked up when the token was read (before any renaming)
-    let val0 :=
-      if has tr C03Tables.trimAttr then trimWhitespace (replaceWsEntities C03Tables.entitiesMap [] x.val)
-      else replaceEntities C03Tables.entitiesMap [] x.val
+    let val0 := attrVal0 (has tr C03Tables.trimAttr) x.val
     let finish (val : List Char) (mt : Option (List Char)) : Except String (List Char × Option (List Char)) :=
       .ok (' ' :: x.name ++
         (if !val.isEmpty && !has tr C03Tables.booleanAttr then
@@ -319,6 +399,7 @@ structure St where
   rawMediatype : List Char := []           -- `rawTagMediatype`
   dropText : Bool := false                 -- the next token is skipped if it is a text token without template
   dropEnd : Bool := false                  -- the next token (the end tag of an empty script/style) is skipped
+  afterPre : Nat := 0                      -- `afterPreStart`: 1 right after `<pre>`, 2 and a comment was passed since
   deriving Repr
 
 def isSpecialComment (text : List Char) : Bool :=
@@ -355,10 +436,15 @@ def updOmitSpace (o : Opts) (name : List Char) (cur : Bool) : Bool :=
   else if isBlock name then true
   else cur
 
+/-- whitespace collapsing and reference replacement of an ordinary text token -/
+def textCollapsed (data : List Char) : List Char :=
+  if hasReferenceGlue data then collapseWs false data
+  else replaceWsEntities C03Tables.entitiesMap C03Tables.textRevEntitiesMap data
+
 /-- the ordinary text branch: collapse whitespace and replace references, trim left if the pending-space flag is
     set, trim right by look-ahead; result: new pending-space flag and the bytes written -/
 def textNormal (keepWs omitSpace : Bool) (data : List Char) (rest : List HTok) : Bool × List Char :=
-  let d := replaceWsEntities C03Tables.entitiesMap C03Tables.textRevEntitiesMap data
+  let d := textCollapsed data
   let d1 := if omitSpace && headIs isWhitespace d then d.drop 1 else d
   match d1.getLast? with
   | none => (true, [])
@@ -370,12 +456,13 @@ def textNormal (keepWs omitSpace : Bool) (data : List Char) (rest : List HTok) :
 /-- the end-tag branch (`st0`: state with the skip flag already cleared) -/
 def endStep (o : Opts) (st0 : St) (name data : List Char) (rest : List HTok) : St × List Char :=
   let st1 := { st0 with rawTag := [] }
-  let st2 := if hashIs name "template" then { st1 with omitSpace := true } else st1
-  let st3 := if hashIs name "pre" then { st2 with inPre := false } else st2
+  let st3 := if hashIs name "pre" then { st1 with inPre := false } else st1
   if isDroppedTag o name then (st3, [])
   else
     let dt := hashIs name "option" || hashIs name "optgroup"
-    if omitEndTag o name rest then ({ st3 with dropText := dt }, [])
+    if omitEndTag o name rest then
+      -- the omitted end tag of an object-like element still ends it
+      ({ st3 with omitSpace := if isObject name then false else st3.omitSpace, dropText := dt }, [])
     else ({ st3 with omitSpace := updOmitSpace o name st3.omitSpace, dropText := dt }, endTagBytes name data)
 
 /-- `<script></script>` / `<style></style>` without attributes: both tags are skipped -/
@@ -390,7 +477,7 @@ def startPre (st0 : St) (name : List Char) (attrs : List Attr) : St :=
   let raw2 := if isRaw && !attrs.isEmpty && hashIs name "style" &&
                  attrs.any (fun a => hashOf a.name == s "amp-boilerplate") then [] else raw1
   let st2 := { st0 with rawTag := raw2, rawMediatype := if isRaw then [] else st0.rawMediatype }
-  if hashIs name "pre" then { st2 with inPre := true } else st2
+  if hashIs name "pre" then { st2 with inPre := true, afterPre := 1 } else st2
 
 /-- start tag, state after the tag was written (`mt`: value of a `type` attribute of a raw-text element) -/
 def startPost (o : Opts) (st3 : St) (name : List Char) (rest : List HTok) (mt : Option (List Char)) : St :=
@@ -406,12 +493,13 @@ def step (o : Opts) (ext : Ext) (sub : Sub) (st : St) (t : HTok) (rest : List HT
     Except String (St × List Char) :=
   if st.dropEnd then .ok ({ st with dropEnd := false }, [])   -- `tb.Shift()` twice: StartTagClose and the end tag
   else
-  let st0 := { st with dropText := false }
+  let st0 := { st with dropText := false, afterPre := 0 }
   match t with
   | .doctype => .ok (st0, s "<!doctype html>")
   | .comment data text => do
     let out ← commentOut o ext data text
-    .ok (st0, out)
+    -- only a comment that really disappears can put the newline of the text right behind `<pre>`
+    .ok ({ st0 with afterPre := if 0 < st.afterPre && out.isEmpty then 2 else 0 }, out)
   | .svg data => .ok ({ st0 with omitSpace := false }, callSub sub (s "image/svg+xml") true data)
   | .math data => .ok ({ st0 with omitSpace := false }, callSub sub (s "application/mathml+xml") false data)
   | .template data => .ok ({ st0 with omitSpace := false }, data)
@@ -421,7 +509,9 @@ def step (o : Opts) (ext : Ext) (sub : Sub) (st : St) (t : HTok) (rest : List HT
       if hashIs st.rawTag "style" || hashIs st.rawTag "script" || hashIs st.rawTag "iframe" then
         .ok (st0, callSub sub (rawMime st.rawTag st.rawMediatype) false data)
       else .ok (st0, data)
-    else if st.inPre then .ok (st0, data)
+    else if st.inPre then
+      -- a newline directly after `<pre>` would be dropped by the parser once the comment in between is gone
+      .ok (st0, if st.afterPre = 2 && headIs (fun c => c = '\n' || c = '\r') data then '\n' :: data else data)
     else
       let r := textNormal o.keepWhitespace st.omitSpace data rest
       .ok ({ st0 with omitSpace := r.1 }, r.2)
@@ -430,7 +520,7 @@ def step (o : Opts) (ext : Ext) (sub : Sub) (st : St) (t : HTok) (rest : List HT
     if emptyRawElement name attrs rest then .ok ({ st0 with rawTag := [], dropEnd := true }, [])
     else
       let st3 := startPre st0 name attrs
-      if attrs.isEmpty && isDroppedTag o name then .ok (st3, [])
+      if attrs.isEmpty && !(hashIs name "body" && keepBody rest) && isDroppedTag o name then .ok (st3, [])
       else do
         let as0 ← specialAttrs ext name (attrs.map AttrSt.ofAttr)
         let (aout, mt) ← writeAttrs o ext sub name st3.rawTag as0 none
